@@ -76,6 +76,34 @@ func VerifyMerklePath(leaf bitcoin.Hash32, index uint64, path []bitcoin.Hash32, 
 	return cur
 }
 
+// MerkleProofShape says what is wrong with the shape of a proof for leaf idx of an n-leaf tree: one
+// node per level (a sibling hash, or a marker that the running hash is paired with itself), the
+// markers exactly at the levels where the leaf's ancestor is the last node of an odd row.
+func MerkleProofShape(n, idx, pathLen int, dupLayers []uint64) string {
+	var want []uint64
+	pos, width := idx, n
+	for layer := uint64(1); width > 1; layer++ {
+		if pos == width-1 && width%2 == 1 {
+			want = append(want, layer)
+		}
+		pos /= 2
+		width = (width + 1) / 2
+	}
+	depth := MerkleDepth(n)
+	if pathLen+len(dupLayers) != depth {
+		return fmt.Sprintf("%d nodes for a tree of depth %d", pathLen+len(dupLayers), depth)
+	}
+	if len(want) != len(dupLayers) {
+		return fmt.Sprintf("duplicated layers should be %v", want)
+	}
+	for i := range want {
+		if want[i] != dupLayers[i] {
+			return fmt.Sprintf("duplicated layers should be %v", want)
+		}
+	}
+	return ""
+}
+
 // MerkleDepth is the number of levels above the leaves for n leaves.
 func MerkleDepth(n int) int {
 	d := 0
@@ -247,6 +275,7 @@ type Universe struct {
 	Outs  map[wire.OutPoint]*wire.TxOut
 	Order []wire.OutPoint
 	seq   uint32
+	mu    sync.RWMutex // Build (test goroutine) vs Lookup (the node's fetcher goroutine) in the L1/DDC engines
 }
 
 func NewUniverse(r *rand.Rand, n int) *Universe {
@@ -299,6 +328,8 @@ type TxSpec struct {
 // Build makes the transaction and registers its outputs in the universe (so children can spend
 // them and the fetcher knows them).
 func (u *Universe) Build(r *rand.Rand, spec TxSpec) *wire.MsgTx {
+	u.mu.Lock()
+	defer u.mu.Unlock()
 	u.seq++
 	tx := wire.NewMsgTx(1)
 	for i, in := range spec.Inputs {
@@ -324,6 +355,8 @@ func (u *Universe) Build(r *rand.Rand, spec TxSpec) *wire.MsgTx {
 
 // Spent returns the ground-truth outputs spent by tx, per input (zero output when unknown).
 func (u *Universe) Spent(tx *wire.MsgTx) []*wire.TxOut {
+	u.mu.RLock()
+	defer u.mu.RUnlock()
 	out := make([]*wire.TxOut, len(tx.TxIn))
 	for i, in := range tx.TxIn {
 		if o, ok := u.Outs[in.PreviousOutPoint]; ok {
@@ -337,6 +370,8 @@ func (u *Universe) Spent(tx *wire.MsgTx) []*wire.TxOut {
 
 // GetOutputs implements the node's OutputFetcher over the universe.
 func (u *Universe) Lookup(ops []wire.OutPoint) ([]bitcoin.UTXO, error) {
+	u.mu.RLock()
+	defer u.mu.RUnlock()
 	res := make([]bitcoin.UTXO, len(ops))
 	for i, op := range ops {
 		o, ok := u.Outs[op]
